@@ -44,8 +44,22 @@ def main(argv=None) -> int:
         import shutil
         shutil.rmtree(sc, ignore_errors=True)
         return 2
-    except Exception:
+    except Exception as e:
+        tb = traceback.extract_tb(e.__traceback__)
+        repo = str(common.REPO)
+        in_pytato = [f for f in tb if f.filename.startswith(repo + "/pytato")]
         traceback.print_exc()
+        if in_pytato:
+            # the real code raised somewhere the harness does not expect (it does not on the tree this check was
+            # built against): the correspondence can no longer be run — reported, with the traceback as replay
+            where = in_pytato[-1]
+            ctx.broken.append(f"harness-aborted:{type(e).__name__} raised in {where.filename[len(repo) + 1:]}:"
+                              f"{where.name}: {str(e)[:120]}")
+            ctx.coverage["aborted_traceback"] = traceback.format_exc()[-3000:]
+            try:
+                return ctx.finish()
+            except Exception:   # noqa: BLE001
+                traceback.print_exc()
         import shutil
         shutil.rmtree(sc, ignore_errors=True)
         return 2
